@@ -181,7 +181,20 @@ Section Engine.
           end
         else None
     end.
-  Definition first_nonws (len i : N) : option (N * list N) := first_nonws_aux (S (N.to_nat (len - i))) len i.
+  (** [first_non_whitespace(segments, idx)] as it was before repo commit "fix: first-token pruning looks only
+      at a code segment standing at the start index ...": the first segment from [idx] on with a non-empty raw -
+      whitespace, a newline or a comment included - although a matcher asked there may skip it and start on the
+      code behind it (notes/C13.md, finding F1; [Pem/PruneLegacy.v] keeps the witness). *)
+  Definition first_nonws_legacy (len i : N) : option (N * list N) := first_nonws_aux (S (N.to_nat (len - i))) len i.
+  (** after the fix: only a code segment standing at [idx] itself is compared with the hints; anything else
+      keeps all options *)
+  Definition first_nonws (len i : N) : option (N * list N) :=
+    if i <? len then
+      match get toks i with
+      | Some t => if p_code t then match p_fnw t with Some r => Some (r, p_types t) | None => None end else None
+      | None => None
+      end
+    else None.
 
   Fixpoint prune_aux (first_raw : N) (first_types : list N) (opts : list N) : res (list N) :=
     match opts with
